@@ -368,9 +368,54 @@ def _w_c09_decorators(task):
     return res
 
 
+def _w_c10_builtins(task):
+    """callables klepto cannot inspect (builtins): the raw arguments are keyed; different argument tuples must still get
+    different keys and every call its own result"""
+    _, tier, kmname = task
+    import itertools
+    import klepto
+    res = {'counts': collections.Counter(), 'violations': [], 'samples': [], 'nontrivial': 0, 'outcomes': set(),
+           'config': task}
+    mk = dict((n, f) for n, f, _ in callmc.keymaps(tier))[kmname]
+    for fn in (divmod, pow, max, min):
+        W = klepto.inf_cache(keymap=mk())(fn)
+        seen = {}
+        for a in itertools.product((1, 2, 3, 7), repeat=2):
+            res['counts']['evaluations'] += 1
+            try:
+                raw = W.key(*a)
+                key = freeze(raw)
+                try:
+                    hash(raw)
+                    got = W(*a)
+                except TypeError:
+                    got = fn(*a)      # an unhashable raw key cannot be stored in a dict-backed cache: only the key is checked
+            except Exception as e:
+                res['violations'].append(_v('C10', {'rule': 'key-raises', 'exc': type(e).__name__, 'keymap': kmname, 'form': 'builtin'},
+                                            'builtin %s%r under %s raised %r' % (fn.__name__, a, kmname, e), {'task': list(task), 'calls': [[a, ()]]}))
+                continue
+            if key in seen and seen[key] != a:
+                res['violations'].append(_v('C10', {'rule': 'different-calls-share-key', 'keymap': kmname, 'form': 'builtin', 'typed': False},
+                                            'builtin %s: calls %r and %r share key %r under %s' % (fn.__name__, seen[key], a, key, kmname),
+                                            {'task': list(task), 'calls': [[seen[key], ()], [a, ()]]}))
+            seen.setdefault(key, a)
+            if got != fn(*a):
+                res['violations'].append(_v('C10', {'rule': 'answered-with-other-result', 'keymap': kmname, 'form': 'builtin', 'typed': False},
+                                            'builtin %s%r returned %r through the cache, %r directly' % (fn.__name__, a, got, fn(*a)),
+                                            {'task': list(task), 'calls': [[a, ()]]}))
+        res['nontrivial'] += len(seen)
+        res['counts']['programs'] += 1
+    res['counts'] = dict(res['counts'])
+    res['outcomes'] = []
+    res['config_summary'] = 'builtins under %s' % kmname
+    return res
+
+
 def _w_dispatch(task):
     if task[0] == 'C09-decorators':
         return _w_c09_decorators(task)
+    if task[0] == 'C10-builtins':
+        return _w_c10_builtins(task)
     return _w_c0910(task)
 
 
@@ -394,6 +439,10 @@ def run_c0910(prop, tier, seed):
                     for deep in (False, True):
                         for defaults in ('round', 'unround'):
                             tasks.append(('C09-decorators', tier, mod, alg, tol, deep, defaults))
+    if prop == 'C10':
+        for kmname, mk, preserving in callmc.keymaps(tier):
+            if preserving:
+                tasks.append(('C10-builtins', tier, kmname))
     for res in pool.run_configs(_w_dispatch, tasks, seed=seed):
         rep.merge(res)
     rep.extra['signatures'] = len(specs)
